@@ -4,7 +4,7 @@ import itertools
 from symnp import core
 from symnp.core import band, bor, bnot, iff, implies
 from symnp.hapi import PreconditionFailed
-from .common import POOL, slice_points
+from .common import POOL, slice_points, get_curve, random_curves
 
 PROPERTY = 'C02'
 FUNCTIONS = ['multi_knee.multi_knee', 'curvature.multi_knee', 'dfdt.multi_knee', 'menger.multi_knee', 'lmethod.multi_knee', 'kneedle.multi_knee',
@@ -112,7 +112,7 @@ def run(h, case):
             lf.linear_fit_points, lf.smape_points, lf.linear_r2_points = saved
     # ---- inline slices with the real detectors
     det = case['fn']
-    X, Y = slice_points(h, POOL[case['curve']], case['pos'])
+    X, Y = slice_points(h, get_curve(case['curve']), case['pos'])
     n = len(X)
     pts = h.argument(h.array([[a, b] for a, b in zip(X, Y)]))
     mod = getattr(L, det)
@@ -153,7 +153,7 @@ def repair(R, case, inputs):
     import numpy as np
     if case['layer'] != 'L0':
         return
-    curve = POOL[case['curve']]
+    curve = get_curve(case['curve'])
     pts = np.array([[float(a), float(Fr(inputs.get('y%d' % i, b)) if i in case['pos'] else b)] for i, (a, b) in enumerate(curve)], dtype=float)
     n = len(pts)
     vals = [0.0]
@@ -167,6 +167,17 @@ def repair(R, case, inputs):
         alt = dict(inputs)
         alt['t1'] = str(Fr(v))
         yield alt
+
+
+def realise(case, rnd):
+    """concretiser for abstract counterexamples: the real detectors on small random integer curves (collinear runs are frequent), t1 in {0, default}"""
+    n = case['n']
+    dets = ['menger'] if case['contract'] == 'menger' else (['kneedle'] if case['contract'] == 'kneedle' else ['curvature', 'dfdt', 'lmethod'])
+    for curve in random_curves(max(n, 5), rnd, 40):
+        for det in dets:
+            c2 = dict(layer='L0', fn=det, curve=curve, pos=[], int_range=[-3, 8], realised_from=dict(n=n, contract=case['contract']))
+            for t1 in ('0', '1/1000'):
+                yield c2, dict(t1=t1)
 
 
 LEVEL_TEXT = ('Bounded symbolic model checking. L1: the real multi_knee driver runs over a free single-knee oracle K(l,r) (any integer inside the detector\'s range contract) and a free gate '
